@@ -299,9 +299,14 @@ def run(ctx):
         "FIN/REQ/TOUCH may do anything to the broker once past their own guards (parameter Ext)",
         "deny_is_fatal and requery_after_ttl are stated for commands that reach CheckAuth (hypothesis: not rejected "
         "for TLS or for their arguments before the check)",
+        "PARTIAL (audit B10): the first clause read literally is false (Props.C11Tls.tls_clause_literal_false: an IDENTIFY "
+        "that does not negotiate TLS is executed on a plaintext connection under --tls-required); tls_clause_partial weakens "
+        "'executed' to 'has an effect outside the connection's own negotiation settings'",
+        "auth TTLs are at most 9223372036 s (beyond, the code's int64 nanosecond product wraps to an EARLIER expiry: "
+        "Props.C11Auth.ttl_exact_and_never_late; Model.Gate uses unbounded integers)",
     ]
     ctx.rule = ("correspondence: one in-process nsqd per policy configuration (tls-required x client-cert policy x "
-                "certificate x auth; 29 configurations incl. 3 that New must refuse), generated connection scenarios "
+                "certificate x auth; 31 configurations incl. 3 that New must refuse), generated connection scenarios "
                 "(IDENTIFY variants with every client certificate kind, AUTH variants, every command with valid and "
                 "malformed arguments, virtual time before/after the TTL, scripted auth answers: HTTP errors, bad JSON, bad "
                 "TTL/permission/regex, empty grants, changes of mind); one line per command = replies, closure, auth-server "
